@@ -26,6 +26,10 @@ def spec_mass(text):
     return m
 
 
+# the seed of the two-run history: 0, the one int a truthiness test confuses with 'no seed given' (seeded change C17-A10);
+# the stream R(seed, k, n) is uninterpreted, so no other concrete value adds a case
+SEED = 0
+
 class C17(SamplerProp):
     ID = 'C17'
     FUNCTIONS = ['__init__', 'add_fragment', 'sample', '_select_bonding_operator', '_set_bond_order_defaults',
@@ -90,7 +94,7 @@ class C17(SamplerProp):
         prog = ("import json,sys\nsys.path.insert(0, %r)\nimport os\nos.environ.setdefault('PBR_VERSION','0.0.0')\n"
                 "from cgsmiles.sample import MoleculeSampler\n"
                 "out = []\n"
-                "for seed in (7, 11, 2024):\n"
+                "for seed in (0, 7, 11, 2024):\n"
                 "    s = MoleculeSampler.from_fragment_string(%r, all_atom=%r, seed=seed, **%r)\n"
                 "    mol = s.sample(%r)\n"
                 "    out.append([sorted((n, sorted((k, repr(v)) for k, v in d.items() if k != 'graph')) for n, d in mol.nodes(data=True)),"
@@ -132,15 +136,15 @@ class C17(SamplerProp):
         if getattr(M, 'is_shadow', False):
             self._mode.clear()
             self._run_index[0] = 0
-            r1 = core.guard(self._run_once, M, shape, inp, 7, True)
+            r1 = core.guard(self._run_once, M, shape, inp, SEED, True)
             loader.reset_state(M)        # the second history starts in a fresh process
             self._decoy(M, shape)
             self._run_index[0] = 1
-            r2 = core.guard(self._run_once, M, shape, inp, 7, True)
+            r2 = core.guard(self._run_once, M, shape, inp, SEED, True)
             self._run_index[0] = 0
             inp['draws'] = dict(STREAM.draws)
             return [r2, r1]
-        r1, r2 = self._real_run(M, shape, inp, seeds=(7, 7), between=lambda: (loader.reset_state(M), self._decoy(M, shape)))
+        r1, r2 = self._real_run(M, shape, inp, seeds=(SEED, SEED), between=lambda: (loader.reset_state(M), self._decoy(M, shape)))
         return [r2, r1]
 
     def oracle(self, shape, inp, obs):
